@@ -62,6 +62,13 @@ CLAIMED = {
             'then exactly the body\'s requests, then unlock t once, on return and on raise; the body\'s exception propagates; a refused lock runs '
             'neither body nor unlock; lock/unlock events of any program are well-bracketed. Random programs run as real `with m.locked()` blocks.',
             NOTE + 'the Python with-statement protocol is a trusted primitive.', 'DESIGN.md 5/C13'),
+    'C16': (T + ': finite profile / isolation tables (decide +kernel) + non-interference by induction',
+            'Proved over the tables regenerated from the 14 handler modules: every advertised name resolves to the class of its name, vendor '
+            'operations take precedence and all standard ones remain, a base URI is always advertised (for all user extras), subsystem candidates '
+            'are duplicate-free and the preference rule puts ANY preferred name first; no probed public call writes a module- or class-level '
+            'container; non-interference for every history of operations whose write sets avoid what is observed. Random histories over live '
+            'handlers and managers are observed on the real code.',
+            NOTE + 'write sets are measured by snapshot diff over a hand-written catalogue of public calls.', 'DESIGN.md 5/C16'),
     'C08': (T + ': grammar spec <-> _abbreviate, dict semantics',
             'Machine-checked proof that, in the model of capabilities.py, lookup of an advertised URI succeeds, shorthand lookup succeeds iff the '
             'grammar of RFC capability/base URNs says so (both URN forms), results are the right capability, parameters are exactly the '
